@@ -1,14 +1,14 @@
 """C17 — subgroup membership test is exact and cofactor clearing lands in the subgroup"""
 import oracle as O
 from common import Case, Pred
-from props.util import from_lib_p3, lib_g1, lib_g2, nontrivial_default, pt_eq, tok_g1, tok_g2
+from props.util import from_lib_p3, lib_g1, lib_g2, nontrivial_default, pt_eq, tfq, tok_g1, tok_g2
 
 RULE = ("correspondence: subgroup_check / clear_cofactor_G1/G2 of the model vs the real functions on kG, kG+T (T in the cofactor "
         "torsion: full-cofactor component r*R and its components of small prime order 3, 11, 13, 23, ...), random curve points, "
         "infinity, random projective scalings; predicates: subgroup_check == (r*P == inf by the independent oracle), "
         "clear_cofactor == h_eff*P lands in the subgroup, cofactor constants re-derived from the curve parameter x")
-HYPOTHESES = ["HB2_card_blsE1 / HB2_card_blsE2 (group orders h1*r, h2*r; Hasse bound not in Mathlib) for 'every curve point is mapped into the subgroup'"]
-NOT_YET_PROVED = ["cofactor clearing maps EVERY curve point into the r-torsion: needs #E = h*r (HB2); sampled"]
+HYPOTHESES = []
+NOT_YET_PROVED = []
 ASSUMPTIONS = []
 nontrivial = nontrivial_default
 
@@ -75,8 +75,34 @@ def _g2_inputs(rng, tier):
     return pts
 
 
+def same_xy_other_z(rng):
+    """pairs of projective triples sharing X and Y but not Z: P = (x, y, 1) in the subgroup and Q = (x, y, z') with z' another root of
+    4 z^3 - y^2 z + x^3 = 0 (a different curve point, generically outside the subgroup). Returns [(x, y, z), ...] as ints."""
+    p = O.BLS_P
+    out = []
+    for _ in range(40):
+        Pt = O.g1(rng.randrange(1, O.BLS_R))
+        x, y = Pt[0].v, Pt[1].v
+        # 4 z^2 + 4 z + (4 - y^2) = 0  (after dividing the cubic by z - 1, using x^3 = y^2 - 4)
+        disc = O.Fp((16 - 16 * (4 - y * y)) % p, p).sqrt()
+        if disc is None:
+            continue
+        for sg in (1, -1):
+            z = (-4 + sg * disc.v) * pow(8, -1, p) % p
+            if z not in (0, 1) and (y * y * z - x ** 3 - 4 * z ** 3) % p == 0:
+                out.append(((x, y, 1), (x, y, z)))
+        if len(out) >= 2:
+            break
+    return out
+
+
 def cases(rng, tier):
     cs = []
+    # call histories inside one interpreter: the same X, Y with two different Z, in both orders (first cases = one chunk)
+    for P1, Q1 in same_xy_other_z(rng)[:2]:
+        for a, b_ in ((P1, Q1), (Q1, P1)):
+            cs.append(Case("codec.subgroup_check_g1", [tfq(a[0]), tfq(a[1]), tfq(a[2])], tags=("same-xy",)))
+            cs.append(Case("codec.subgroup_check_g1", [tfq(b_[0]), tfq(b_[1]), tfq(b_[2])], tags=("same-xy",)))
     reps = 2 if tier == "quick" else 6
     for _ in range(reps):
         for tag, P in _g1_inputs(rng, tier):
@@ -113,6 +139,25 @@ def check_pred(grp, tag, P, sc):
     return (not bad, f"G{grp} {tag}: {bad} at P={P}")
 
 
+def same_xy_history_pred(P1, Q1):
+    """one interpreter: subgroup_check on (x, y, 1) then on (x, y, z') and in the other order: each answer = oracle"""
+    from py_ecc.bls import g2_primitives as GP
+    from py_ecc.fields import optimized_bls12_381_FQ as FQ
+    p = O.BLS_P
+
+    def want(T):
+        zi = pow(T[2], -1, p)
+        A = (O.Fp(T[0] * zi, p), O.Fp(T[1] * zi, p))
+        return O.aff_mul(A, O.BLS_R) is None
+    bad = []
+    for seq in ((P1, Q1, P1), (Q1, P1, Q1)):
+        for T in seq:
+            got = GP.subgroup_check((FQ(T[0]), FQ(T[1]), FQ(T[2])))
+            if got != want(T):
+                bad.append(f"subgroup_check(z={T[2] % 1000}..) = {got}, oracle {want(T)} (history {[t[2] % 1000 for t in seq]})")
+    return (not bad, f"subgroup_check on triples sharing X, Y: {bad[:3]}")
+
+
 def constants_pred():
     from py_ecc.bls import constants as BC
     from py_ecc.optimized_bls12_381 import constants as OC
@@ -133,6 +178,8 @@ def constants_pred():
 
 def predicates(rng, tier, only=None):
     ps = [Pred("cofactor-constants", constants_pred, ())]
+    for P1, Q1 in same_xy_other_z(rng)[:2]:
+        ps.append(Pred("subgroup-exact", same_xy_history_pred, (P1, Q1)))
     for _ in range(1 if tier == "quick" else 5):
         for tag, P in _g1_inputs(rng, tier):
             ps.append(Pred("subgroup-exact", check_pred, (1, tag, P, rng.randrange(1, O.BLS_P))))
